@@ -51,11 +51,14 @@ pub struct Cfg {
     /// recorded decisions to feed back (replay / minimisation)
     #[serde(default)]
     pub decisions: Option<Vec<u32>>,
+    /// the call under test is made twice on the same thread; the *second* result is the outcome
+    #[serde(default)]
+    pub repeat: bool,
 }
 
 impl Cfg {
     pub fn reference() -> Cfg {
-        Cfg { workers: 1, strategy: "sequential".into(), sched_seed: 0, hash_seed: 0, addr_seed: None, prefix: vec![], from_worker: false, decisions: None }
+        Cfg { workers: 1, strategy: "sequential".into(), sched_seed: 0, hash_seed: 0, addr_seed: None, prefix: vec![], from_worker: false, decisions: None, repeat: false }
     }
 }
 
@@ -142,12 +145,16 @@ pub fn run_one(sc: &Scenario, op: &'static OpDef, input: &Input, prefix_inputs: 
         ..sim::Config::default()
     };
     let from_worker = cfg.from_worker;
+    let repeat = cfg.repeat;
     let (res, report) = sim::run(scfg, move || {
         let body = move || {
             for (pop, pin) in prefix_inputs {
                 // the prefix only churns thread-local key counters, lazies and the heap; a panic
                 // in it is not the call under test
                 let _ = std::panic::catch_unwind(std::panic::AssertUnwindSafe(|| exec(pop, pin)));
+            }
+            if repeat {
+                let _ = std::panic::catch_unwind(std::panic::AssertUnwindSafe(|| exec(op, input)));
             }
             exec(op, input)
         };
@@ -193,6 +200,11 @@ pub fn gen_scenario(seed: u64, large: u8) -> Scenario {
         if large > 0 && !op.large_ok {
             continue;
         }
+        // operations that meet a pool, a keyed map or an address get 3x the weight of the rest
+        let hot = op.large_ok || matches!(op.name, "stitch_triangulation" | "sweep_intersections" | "sweep_intersections_refs" | "interior_point" | "monotone_subdivision" | "par_iter_multipolygon" | "par_iter_multipoint_mls" | "unary_union_multi" | "intersection_poly_poly");
+        if large == 0 && !hot && !rng.chance(1, 3) {
+            continue;
+        }
         let fams: Vec<&str> = inputs::FAMILIES.iter().copied().filter(|f| ops::compatible(op, f)).filter(|f| large == 0 || matches!(*f, "lattice" | "circles" | "combs")).collect();
         if fams.is_empty() {
             continue;
@@ -223,7 +235,16 @@ pub fn gen_cfg(seed: u64, v: u64) -> Cfg {
         _ => 1 + rng.below(16),
     };
     let strategy = *rng.pick(&["uniform", "uniform", "steal-eager", "steal-eager", "steal-rare", "pct1", "pct2", "pct3", "sequential"]);
-    let prefix: Vec<String> = if rng.chance(1, 3) { (0..1 + rng.below(3)).map(|_| rng.pick(PREFIX_OPS).0.to_string()).collect() } else { vec![] };
+    // history prefix: other catalogue operations, and - most likely to expose an unkeyed cache or a
+    // reused workspace - the *same* operation on a different input of the same family
+    // ("@self:<size>:<seed>")
+    let prefix: Vec<String> = if rng.chance(2, 5) {
+        (0..1 + rng.below(3))
+            .map(|_| if rng.chance(1, 2) { format!("@self:{}:{}", 1 + rng.below(24), rng.next_u64()) } else { rng.pick(PREFIX_OPS).0.to_string() })
+            .collect()
+    } else {
+        vec![]
+    };
     Cfg {
         workers,
         strategy: strategy.to_string(),
@@ -233,14 +254,25 @@ pub fn gen_cfg(seed: u64, v: u64) -> Cfg {
         prefix,
         from_worker: rng.chance(1, 5),
         decisions: None,
+        repeat: rng.chance(1, 6),
     }
 }
 
-fn prefix_inputs(cfg: &Cfg) -> Vec<(&'static OpDef, Input)> {
+fn prefix_inputs_for(sc: &Scenario, cfg: &Cfg) -> Vec<(&'static OpDef, Input)> {
     cfg.prefix
         .iter()
         .enumerate()
         .filter_map(|(k, name)| {
+            if let Some(rest) = name.strip_prefix("@self:") {
+                if sc.knobs.strategy == 4 {
+                    return None; // forced Frag is only ever run on inputs screened by S7
+                }
+                let (size, seed) = rest.split_once(':')?;
+                let op = ops::find(&sc.op)?;
+                // never larger than the scenario's own input (keeps shipped-threshold runs cheap)
+                let size: usize = size.parse::<usize>().ok()?.min(sc.input.size.max(1));
+                return Some((op, inputs::build(&InputSpec { family: sc.input.family.clone(), size, seed: seed.parse().ok()? })));
+            }
             let fam = PREFIX_OPS.iter().find(|(n, _)| n == name)?.1;
             let op = ops::find(name)?;
             Some((op, inputs::build(&InputSpec { family: fam.to_string(), size: 6, seed: 1000 + k as u64 })))
@@ -253,7 +285,7 @@ fn prefix_inputs(cfg: &Cfg) -> Vec<(&'static OpDef, Input)> {
 // ---------------------------------------------------------------------------------------------
 
 fn differs(sc: &Scenario, op: &'static OpDef, input: &Input, cfg: &Cfg, reference: &Outcome) -> Option<(Outcome, RunInfo)> {
-    let pin = prefix_inputs(cfg);
+    let pin = prefix_inputs_for(sc, cfg);
     let (o, info) = run_one(sc, op, input, &pin, cfg);
     if &o != reference {
         Some((o, info))
@@ -338,6 +370,7 @@ fn minimise(sc: &Scenario, cfg: &Cfg) -> Option<Minimised> {
     };
     try_reset("prefix", &|c| c.prefix.clear(), &mut cfg);
     try_reset("from_worker", &|c| c.from_worker = false, &mut cfg);
+    try_reset("repeat", &|c| c.repeat = false, &mut cfg);
     try_reset("addr", &|c| c.addr_seed = None, &mut cfg);
     try_reset("hash", &|c| c.hash_seed = 0, &mut cfg);
     try_reset(
@@ -360,6 +393,9 @@ fn minimise(sc: &Scenario, cfg: &Cfg) -> Option<Minimised> {
     }
     if cfg.from_worker {
         needed.push("from_worker");
+    }
+    if cfg.repeat {
+        needed.push("repeat");
     }
     if cfg.addr_seed.is_some() {
         needed.push("addr");
@@ -526,6 +562,12 @@ fn account(t: &mut Tot, sc: &Scenario, cfg: &Cfg, info: &RunInfo) {
     if cfg.from_worker {
         t.add("runs_from_worker", 1);
     }
+    if cfg.repeat {
+        t.add("runs_with_repeat", 1);
+    }
+    if cfg.prefix.iter().any(|p| p.starts_with("@self")) {
+        t.add("runs_with_self_prefix", 1);
+    }
     if cfg.addr_seed.is_some() {
         t.add("runs_with_addr_shuffle", 1);
     }
@@ -588,7 +630,7 @@ pub fn run(a: &Args) -> i32 {
         tot.max("max_segments", input.segments as u64);
         for v in 0..variants {
             let cfg = gen_cfg(s_r, v);
-            let pin = prefix_inputs(&cfg);
+            let pin = prefix_inputs_for(&sc, &cfg);
             let (got, info) = run_one(&sc, op, &input, &pin, &cfg);
             evaluations += 1;
             account(&mut tot, &sc, &cfg, &info);
@@ -616,12 +658,14 @@ pub fn run(a: &Args) -> i32 {
                 }
             }
             if got != reference {
-                if violations.iter().filter(|x| !x["replay"].is_null()).count() < 3 {
+                let cls = class_of(&reference, &got);
+                let same_kind = violations.iter().filter(|x| !x["replay"].is_null() && x["op"] == sc.op.as_str() && x["class0"] == cls).count();
+                if same_kind < 2 && violations.iter().filter(|x| !x["replay"].is_null()).count() < 8 {
                     match minimise(&sc, &cfg) {
                         Some(m) => {
                             let rep = replay_json(a, r, &m, &sc, &cfg);
                             let path = write_replay(a, &format!("C20-{}-{}{}-{}.json", a.seed, if large > 0 { "L" } else { "" }, r, v), &rep);
-                            violations.push(json!({"replay": path, "class": class_of(&m.reference, &m.got), "op": m.sc.op,
+                            violations.push(json!({"replay": path, "class": class_of(&m.reference, &m.got), "class0": cls, "op": m.sc.op,
                                 "needed_dimensions": m.needed, "predicates": rep["predicates"],
                                 "detail": format!("{} on {:?}: reference {} vs {} under {:?}", m.sc.op, m.sc.input, m.reference.to_json(), m.got.to_json(), m.cfg.strategy)}));
                         }
@@ -690,7 +734,7 @@ pub fn replay(a: &Args) -> i32 {
     let op = ops::find(&sc.op).expect("op");
     let input = inputs::build(&sc.input);
     let (reference, _) = run_one(&sc, op, &input, &[], &Cfg::reference());
-    let pin = prefix_inputs(&cfg);
+    let pin = prefix_inputs_for(&sc, &cfg);
     let (got, info) = run_one(&sc, op, &input, &pin, &cfg);
     println!("reference: {}", reference.to_json());
     println!("variant  : {} ({} decisions, {} key draws, {} shuffled allocations)", got.to_json(), info.report.stats.steps, info.key_draws, info.alloc.shuffled_choices);
@@ -716,7 +760,7 @@ pub fn exec_one(a: &Args) -> i32 {
     let cfg: Cfg = if v["config"].is_null() { Cfg::reference() } else { serde_json::from_value(v["config"].clone()).expect("config") };
     let op = ops::find(&sc.op).expect("op");
     let input = inputs::build(&sc.input);
-    let pin = prefix_inputs(&cfg);
+    let pin = prefix_inputs_for(&sc, &cfg);
     let t0 = Instant::now();
     let (got, info) = run_one(&sc, op, &input, &pin, &cfg);
     println!("{} in {:?}: {:?} key_draws={} alloc={:?} solver_calls={}", got.to_json(), t0.elapsed(), info.report.stats, info.key_draws, info.alloc, info.solver_calls);
